@@ -64,6 +64,10 @@ def outcome_of_report(rep):
     return ("ok", d) if G.in_normal_form(d) else ("err", "NotNormalForm", d)
 
 
+class ImplementationRaised(Exception):
+    pass
+
+
 def attempt(f):
     try:
         return f()
@@ -92,9 +96,11 @@ def tree_level(desc, now_ms):
     m = impl()
     rep = G.build_report(desc)
     with FixedClock(now_ms):
-        jt = m.J.serialize_report_into_json(rep)
+        jt = attempt(lambda: ("ok", copy.deepcopy(m.J.serialize_report_into_json(rep))))   # detached from the report objects
         xt = attempt(lambda: ("ok", m.X.serialize_report_as_xml_tree(G.build_report(desc))))
-    jt = copy.deepcopy(jt)               # detaches the tree from the report objects (no text layer at this level)
+    if jt[0] != "ok":
+        raise ImplementationRaised("serialize_report_into_json raises %s" % jt[1])
+    jt = jt[1]
     jl = attempt(lambda: outcome_of_report(m.J._unserialize_report(copy.deepcopy(jt))))
     xl = attempt(lambda: outcome_of_report(m.X._unserialize_report(xt[1]))) if xt[0] == "ok" else None
     return jt, xt, jl, xl
@@ -570,8 +576,7 @@ def text_layer_cases(rng, n):
                 if rng.random() < 0.2:
                     g = ET.SubElement(c, "g")
                     g.text = rng.choice(corpus)
-                    if c.text is not None and c.text.strip():
-                        c.text = None          # the serializers never give text to an element with children
+                    c.text = None              # the serializers never give text to an element with children
             src = g_xml(root, parsed=False, root=False)
             work = copy.deepcopy(root)
             m.X.indent_xml(work)
@@ -712,9 +717,20 @@ def check(run):
     descs, xml_exact = [], []
     try:
         # ---------------- 1. known findings: replay every listed witness on the implementation (both backends)
+        base_ok = {}
+        for backend in ("xml", "json"):
+            bad, o = oracle_one(base_desc(), backend, 1700000000000, workdir)
+            base_ok[backend] = bad is None
+            run.evaluations += 1
+            if bad is not None:
+                run.violation("%s:base-report" % backend,
+                              "%s backend: a small report made of plain ASCII words does not load back unchanged (%s)" % (backend.upper(), _brief(o)),
+                              {"backend": backend, "now_ms": 1700000000000, "report": base_desc()})
         for cls, f in finding_table():
             d = witness_for(f, cls)
             for backend in ("xml", "json"):
+                if not base_ok[backend]:
+                    continue      # the witnesses are variations of the base report: nothing to learn from them
                 bad, o = oracle_one(d, backend, 1700000000000, workdir)
                 run.evaluations += 1
                 rp = {"backend": backend, "class": cls, "field": f, "now_ms": 1700000000000, "report": enc_desc(d)}
@@ -764,7 +780,12 @@ def check(run):
             same = expected_after(d, now)
             file_cases.append("(mkF %s %s %s %s)" % (G.to_gallina(d), c_Z(now), g_res(jo, G.to_gallina, same), g_res(xo, G.to_gallina, same)))
             if i < n_tree:
-                jt, xt, jl, xl = tree_level(d, now)
+                try:
+                    jt, xt, jl, xl = tree_level(d, now)
+                except ImplementationRaised as e:
+                    run.tie_broken("json_save_report = serialize_report_into_json", case={"report": enc_desc(d), "now_ms": now},
+                                   detail="%s; the model never fails" % e)
+                    continue
                 if json.loads(json.dumps(jt)) != jt:
                     pass
                 cj = canon_json_tree(jt)
@@ -781,7 +802,10 @@ def check(run):
             d, now = descs[i % len(descs)]
             if has_missing_start(d):
                 continue
-            jt, xt, _, _ = tree_level(d, now)
+            try:
+                jt, xt, _, _ = tree_level(d, now)
+            except ImplementationRaised:
+                continue
             what, jm = mutate_json(run.rng, canon_json_tree(jt))
             jl = attempt(lambda: outcome_of_report(m.J._unserialize_report(copy.deepcopy(jm))))
             run.count("json_mutation_outcome=" + (jl[1] if jl[0] == "err" else "ok"))
@@ -840,9 +864,10 @@ def check(run):
                       "Eval vm_compute in (nonzero (map (fun c => bit (str_eqb (dec_fmt (fst c)) (snd c) && option_eqb Z.eqb (dec_parse (snd c)) (Some (fst c))) 1) icases)).\n",
                       ("time", 0)))
         pw = props_witnesses()
-        files.append(("wit", HEADER + "From LCC Require Import Props.C09.\nDefinition cases : list (report * report) := [\n%s\n].\n" %
-                      ";\n".join("(%s, %s)" % (t, G.to_gallina(d)) for _, t, d, _ in pw) +
-                      "Eval vm_compute in (nonzero (map (fun c => bit (report_eqb (fst c) (snd c)) 1) cases)).\n", ("wit", 0)))
+        if not any(b["kind"] in ("proof", "translator") for b in run.broken):
+            files.append(("wit", HEADER + "From LCC Require Import Props.C09.\nDefinition cases : list (report * report) := [\n%s\n].\n" %
+                          ";\n".join("(%s, %s)" % (t, G.to_gallina(d)) for _, t, d, _ in pw) +
+                          "Eval vm_compute in (nonzero (map (fun c => bit (report_eqb (fst c) (snd c)) 1) cases)).\n", ("wit", 0)))
         outs = run.coq_eval_many([(n, t) for n, t, _ in files], timeout=1500)
         safe_total = 0
         for (name, text, (kind, base)), (rc, out) in zip(files, outs):
